@@ -67,6 +67,9 @@ func (rq *remoteQueue) first() remoteItem {
 func (rq *remoteQueue) retryLast() {
 	if rq.lastConsumed != nil {
 		rq.head = rq.lastConsumed
+		// the item is live in the queue again: drop the reference so the next
+		// consume does not release it to the pool while it is still in use
+		rq.lastConsumed = nil
 	}
 }
 
